@@ -189,7 +189,7 @@ func GenPlan(profile string, seed uint64, thorough bool) *Plan {
 	if r.Intn(10) == 0 {
 		p.Wide = []string{"nodes", "tables", "entities", "filters"}[r.Intn(4)]
 	}
-	if (profile == "C03" || profile == "C13" || profile == "C06") && r.Intn(7) == 0 {
+	if ((profile == "C03" || profile == "C06") && r.Intn(7) == 0) || (profile == "C13" && r.Intn(3) == 0) {
 		p.Wide = "tables" // more than one page (32) of target tables in one relation node
 	}
 	if p.Wide == "tables" && len(p.Types) > 2 {
